@@ -1,5 +1,6 @@
 import MjProof.Lemmas.SolverCert
 import MjProof.Gen.C09Calls
+import MjProof.Model.FwdInv
 import Mathlib.LinearAlgebra.Matrix.NonsingularInverse
 import Mathlib.Algebra.Order.Star.Real
 /-
@@ -136,6 +137,29 @@ theorem invdiscrete_euler (M : Matrix (Fin n) (Fin n) ℝ) (hM : M.PosDef) (B : 
   congr 2
   funext i
   simp [Matrix.mulVec_diagonal]
+
+/-- **Euler, with the branch condition of the code.**  `mj_EulerSkip` integrates implicitly in the joint damping only
+    when `eulerDampActive` (neither `mjDSBL_EULERDAMP` nor `mjDSBL_DAMPER` set, some dof damped), otherwise
+    `a_d = a_c`; `mj_discreteAcc` applies the correction under the SAME condition (fix 12e0c5659; before it the inverse
+    ignored `mjDSBL_DAMPER`), otherwise leaves `qacc` alone.  In every flag combination the continuous acceleration
+    is recovered. -/
+theorem invdiscrete_euler_flags (M : Matrix (Fin n) (Fin n) ℝ) (hM : M.PosDef) (B : Fin n → ℝ) (h : ℝ)
+    (disEulerDamp disDamper anyDamping : Bool) (ac ad x : Fin n → ℝ)
+    (hfwd : if FwdInv.eulerDampActive disEulerDamp disDamper anyDamping = true
+              then (M + h • Matrix.diagonal B) *ᵥ ad = M *ᵥ ac else ad = ac)
+    (hinv : if FwdInv.eulerDampActive disEulerDamp disDamper anyDamping = true
+              then M *ᵥ x = M *ᵥ ad + h • (fun i => B i * ad i) else x = ad) : x = ac := by
+  by_cases hc : FwdInv.eulerDampActive disEulerDamp disDamper anyDamping = true
+  · rw [if_pos hc] at hfwd hinv
+    exact invdiscrete_euler M hM B h ac ad x hfwd hinv
+  · rw [if_neg hc] at hfwd hinv
+    rw [hinv, hfwd]
+
+/-- the defect fixed by 12e0c5659, as a statement about the model: an inverse that ignores `mjDSBL_DAMPER` (applies the
+    correction although the forward step was explicit) does not recover the acceleration: `M = B = h = 1`, `a_c = a_d = 2` -/
+example : FwdInv.eulerDampActive false true true = false ∧
+    ∃ (M B h ac ad x : ℝ), ad = ac ∧ M * x = M * ad + h * (B * ad) ∧ x ≠ ac :=
+  ⟨rfl, 1, 1, 1, 2, 2, 4, rfl, by norm_num, by norm_num⟩
 
 /-- non-vacuity: `M = 1, B = 1, h = 1`: `a_c = 2` is integrated as `a_d = 1`, and the correction returns `2` -/
 example : ∃ (M : Matrix (Fin 1) (Fin 1) ℝ) (B : Fin 1 → ℝ) (h : ℝ) (ac ad x : Fin 1 → ℝ), M.PosDef ∧
